@@ -20,12 +20,12 @@ CHECKS = {
     "C19": ("model_checking",
             "explicit-state breadth-first search over programs under meaning-preserving rewrites, dedup on program text, behaviour compared on the real code",
             "Initial states: every type-directed program of type int, bool or type that evaluates to a value, the nested-group family, and the mixed-group family (58 k groups of 4 annotated definitions mixing functions and computed definitions). Transitions: seven rewrites (consistent renaming of one binder, redundant parentheses, unused definitions, naming the program, annotated identity wrapper, `if true` wrapper, swapping any two independent function definitions of a group) at every applicable site. BFS to depth 2 from programs up to 4/5 nodes and depth 1 up to 6/7 nodes and from the families; every reachable program must be accepted and evaluate to the initial program's value. No reference model is involved.",
-            "Trusted: nothing beyond the rewrite definitions themselves (engine/src/props/c19.rs). One genuine defect is recorded as a known finding (F-ORDER-VALUE, the C01 finding seen through a reordering) with the C01 classifier.",
+            "Trusted: nothing beyond the rewrite definitions themselves (engine/src/props/c19.rs). One genuine defect is recorded as a known finding (F-ORDER-SYNTACTIC: wrapping a value definition that an earlier computed definition uses makes the syntactic definition-order rule reject the program) with a defect-model classifier; F-ORDER-VALUE, first seen here through reorderings, was repaired.",
             "DESIGN.md 6/C19"),
     "C01": ("model_checking",
             "explicit-state exploration of the real small-step evaluator over exhaustively enumerated accepted programs, with a reference interpreter as the stuck-state oracle",
             "Every accepted program of the program space (type-directed programs up to 6/7 nodes and their annotation-omission / `_` variants, single-point perturbations of the smaller ones, all closed annotated terms up to 6/7 nodes, the alias family, the definition-order family with groups of up to 3 definitions) is run with the real evaluator::step one step at a time up to a horizon of 300/3000 steps. Every final state must be a value, or the reference interpreter started from that very state must report a division by zero; any other stuck state is a violation labelled with the reference's reason. Exhaustive over the stated space; programs beyond the horizon are reported as such.",
-            "Trusted: reference interpreter (engine/src/model/interp.rs). Three genuine defects are recorded as known findings with defect-model classifiers (F-ORDER-VALUE, F-HOLE-UNSOLVED, F-HOLE-COPY).",
+            "Trusted: reference interpreter (engine/src/model/interp.rs). Two genuine defects are recorded as known findings with defect-model classifiers (F-HOLE-UNSOLVED, F-HOLE-COPY); a third (F-ORDER-VALUE) was repaired.",
             "DESIGN.md 6/C01"),
     "C02": ("model_checking",
             "explicit-state exploration of the real evaluator with semantic invariance checked in every visited state against a big-step reference interpreter, plus an exhaustive operand sweep",
